@@ -11,6 +11,9 @@ Two differentials against the Lean models (`OnlVerif/Tcp/Sink.lean`, `OnlVerif/T
   the public state compared bit for bit after each; oracle: the run ends without exception, `sender.last_ack`
   equals the flow size, `sink.recv_buffer == [[0, size]]`, and on a loss-free path on which every ACK arrives before
   its segment's timer expires every segment is sent exactly once.
+* overtaken-ACK leg (same replay, same oracles): closed loops whose RETURN path delays every ACK on its own, so that a later
+  cumulative ACK overtakes an earlier one (held ACKs, jitter, application-limited flows - the latter oracle-only); direct oracle:
+  the sender's acknowledged mark `last_ack` never decreases (`loop-lastack-decreased`; in the sndk leg `sndk-lastack-decreased`).
 """
 import collections, copy, itertools, json, random
 
@@ -298,13 +301,17 @@ def build_loop(env, case):
     sinklog = []
     with quiet():
         sink = TCPSink(env)
-    ackpath = Path(env, late, case['adelays'], case['adrops'],
-                   on_put=lambda a: sinklog.append((a.packet_id, a.ack, copy.deepcopy(sink.recv_buffer[:64]))))      # (a sound sink holds few ranges)
+    on_ack = lambda a: sinklog.append((a.packet_id, a.ack, copy.deepcopy(sink.recv_buffer[:64])))      # (a sound sink holds few ranges)
+    if case.get('aorder') == 'free':     # overtaken-ACK leg (b-fixack): a return path that delays every ACK on its own
+        ackpath = FreePath(env, late, case['adelays'], case['adrops'], case.get('ahold'), on_put=on_ack)
+    else:
+        ackpath = Path(env, late, case['adelays'], case['adrops'], on_put=on_ack)
     sink.out = ackpath
     datapath = Path(env, sink, case['ddelays'], case['ddrops'])
     seg = seg_of(case)
     cc = make_cc(case['cc'], mss=seg, cwnd=max(512, seg) * case.get('cwnd0', 1), ssthresh=case.get('ssthresh0', 65535))
-    sr = SenderRun(env, case['cc'], cc, case['rtt_estimate'], case['nseg'] * seg, datapath, flow_id=case.get('flow_id', 0))
+    sr = SenderRun(env, case['cc'], cc, case['rtt_estimate'], case['nseg'] * seg, datapath, flow_id=case.get('flow_id', 0),
+                   arrival=case.get('arrival'), sizes=[seg] if case.get('arrival') else None)
     late.target = sr
     return [sr, sink, None, sinklog, datapath, ackpath]
 
@@ -362,6 +369,16 @@ def loop_oracle(case, sr, sink, ended):
         fails.append({'what': f'the run only stopped because the clock ran away (now = {end_time}): retransmission timers '
                               f'kept re-arming after last_ack = {sr.sender.last_ack} (flow size {size})',
                       'signature': 'loop-no-termination'})
+    # BEGIN b-fixack: "ACKs are cumulative ... the sender's acknowledged mark reaches the end of the data": the mark `last_ack` is the
+    # highest cumulative acknowledgement seen so far, so it never moves back - whatever the order in which the path returns the ACKs
+    # (an ACK overtaken by a later one acknowledges nothing new).  Read off the public attribute around every event of the sender.
+    for r in sr.records:
+        if r['after']['lack'] < r['before']['lack']:
+            fails.append({'what': f'the sender\'s acknowledged mark moved BACK from {r["before"]["lack"]} to {r["after"]["lack"]} at t={r["now"]} '
+                                  f'(event `{r["line"]}`): ACKs are cumulative, an ACK overtaken on the return path by a later one '
+                                  f'acknowledges nothing new', 'signature': 'loop-lastack-decreased'})
+            break
+    # END b-fixack
     # the ACK is cumulative: once last_ack has passed a segment, that segment is acknowledged and is not sent again
     for r in sr.records:
         if r['tag'] in 'AF':
@@ -371,13 +388,7 @@ def loop_oracle(case, sr, sink, ended):
                                       f'{r["before"]["lack"]} (event `{r["line"]}`)',
                               'signature': 'loop-retransmit-acknowledged'})
                 break
-    # ACKs are cumulative: the acknowledged mark never moves back (an ACK overtaken on the return path by a later one carries nothing new)
-    back = next((r for r in sr.records if r['tag'] == 'A' and r['after']['lack'] < r['before']['lack']), None)
-    if back:
-        fails.append({'what': f'at t={back["now"]} an acknowledgement overtaken by a later one (event `{back["line"]}`) moved sender.last_ack back '
-                              f'from {back["before"]["lack"]} to {back["after"]["lack"]}; at the end last_ack = {sr.sender.last_ack}, flow size {size}, '
-                              f'sink holds {sink.recv_buffer[:4]}',
-                      'signature': 'loop-lastack-decreased'})
+    back = any(f['signature'] == 'loop-lastack-decreased' for f in fails)
     if sr.sender.last_ack != size and not back:          # (with a mark that moved back, a short final mark is that defect again)
         fails.append({'what': f'the event queue ran empty with sender.last_ack = {sr.sender.last_ack}, flow size {size}',
                       'signature': 'loop-lastack-short'})
@@ -523,6 +534,90 @@ def reorder_oracle(case, sr, sink, ended, dpath, apath):
                          f'expired, duplicate ACKs reached the sender only in runs of {sorted(set(runs))} (never three in a row; {len(runs)} runs), yet '
                          f'segment(s) {twice[:5]} were transmitted twice', 'signature': 'loop-reorder-spurious-retransmit'}], 'judged'
     return [], 'judged'
+
+# ---- BEGIN overtaken-ACK leg (b-fixack): return paths on which a later ACK overtakes an earlier one ------------------------------
+ASSUMPTIONS.append('overtaken-ACK loops (a family of their own, drawn from their own random stream): the DATA path is order-preserving as above, the '
+                   'RETURN path delays every ACK on its own (delay list cycled by transmission index plus a per-index hold, no clamping to the '
+                   'previous delivery), so a later cumulative ACK can overtake an earlier one - by a fraction of a round trip up to many windows; '
+                   'some of these flows are application-limited (flow.arrival_dist / size_dist: one MSS-sized write every so often): those are '
+                   'outside the sender LTS and are judged by the direct oracles only (counted separately)')
+
+
+class FreePath(Path):
+    """one-way path that is NOT order-preserving: the i-th packet put into it is dropped if i is in `drops`, else delivered after
+    `delays[i % len(delays)] + hold.get(i, 0)` - independently of the packets before it (packets of one flow taking different routes)"""
+
+    def __init__(self, env, out, delays, drops=(), hold=None, on_put=None):
+        Path.__init__(self, env, out, delays, drops, on_put)
+        self.hold = {int(k): float(v) for k, v in (hold or {}).items()}
+
+    def put(self, p):
+        i = self.n
+        self.n += 1
+        if self.on_put:
+            self.on_put(p)
+        if i in self.drops:
+            self.dropped.append(i)
+            return
+        ev = self.env.timeout(self.delays[i % len(self.delays)] + self.hold.get(i, 0.0))
+        ev.callbacks.append(lambda e, p=p: self._deliver(p))
+
+
+def demo_overtake_cases():
+    """the two scenarios of findings/demos/C16_stale_ack.py: (1) a bulk flow of 3 segments under a window of 3 segments whose first ACK is
+    held one second - it is overtaken by ACKs 2 and 3; (2) an application-limited flow (one segment every 5 s) whose second ACK is held
+    402.5 s and arrives while nothing is outstanding"""
+    return [{'kind': 'loop', 'cc': 'reno', 'nseg': 3, 'rtt_estimate': 10.0, 'ddelays': [0.1], 'adelays': [0.1], 'ddrops': [], 'adrops': [],
+             'cwnd0': 3, 'aorder': 'free', 'ahold': {'0': 1.0}},
+            {'kind': 'loop', 'cc': 'reno', 'nseg': 200, 'rtt_estimate': 10.0, 'ddelays': [0.1], 'adelays': [0.1], 'ddrops': [], 'adrops': [],
+             'cwnd0': 1, 'ssthresh0': 1024, 'aorder': 'free', 'ahold': {'1': 402.5}, 'arrival': [5.0]}]
+
+
+def gen_overtake_case(rng):
+    """a closed loop whose return path lets later ACKs overtake earlier ones on purpose.  Shapes: `hold` - a few ACKs (by transmission
+    index) are held back by a fraction of a round trip up to many round trips / RTOs (so they arrive after the window has moved on by more
+    than a window, or after everything else, when nothing is outstanding any more); `jitter` - every ACK gets its own delay from a wide
+    list; `app` - an application-limited flow (one segment every `gap` seconds) with held ACKs.  Initial windows of several segments
+    (Reno) so that several ACKs are in flight at once; some drops in both directions."""
+    shape = rng.choice(['hold', 'hold', 'hold', 'jitter', 'jitter', 'app'])
+    cc = rng.choice(['reno', 'reno', 'cubic'])
+    nseg = rng.choice([2, 3, 3, 4, 5, 6, 8, 12, rng.randint(2, 30)])
+    base = rng.choice([0.01, 0.1, 0.1, 0.4])
+    rtt = rng.choice([1.0, 0.5, 3.0, 10.0, round(2.5 * base, 3)])
+    c = {'kind': 'loop', 'cc': cc, 'nseg': nseg, 'rtt_estimate': rtt, 'ddelays': [base], 'adelays': [base], 'ddrops': [], 'adrops': [],
+         'aorder': 'free'}
+    if cc == 'reno':
+        c['cwnd0'] = rng.choice([2, 3, 4, 4, 10, nseg])
+        c['ssthresh0'] = rng.choice([65535, 65535, 2048, 1024])
+        if rng.random() < 0.15:
+            c['ccmss'] = rng.choice([256, 1000, 1460])
+    span = 2 * nseg + 4
+    if shape in ('hold', 'app'):
+        hold = {}
+        for _ in range(rng.choice([1, 1, 2, 3])):
+            i = rng.randrange(0, max(1, min(span, nseg + 2)))
+            hold[str(i)] = round(rng.choice([0.6 * base, 2 * base, 5 * base, 20 * base, rtt, 3 * rtt, 7 * rtt, 40 * rtt]) * rng.uniform(0.8, 1.3), 4)
+        c['ahold'] = hold
+    else:
+        c['adelays'] = [round(base * rng.choice([0.2, 0.5, 1, 1, 2.5, 6, 15]), 4) for _ in range(rng.choice([2, 3, 5, 7]))]
+    if shape == 'app':
+        c['arrival'] = [rng.choice([5 * base, 20 * base, 5.0, round(rng.uniform(2 * base, 30 * base), 3)])]
+        c['nseg'] = rng.choice([5, 10, 20, 40, rng.randint(3, 60)])
+        # an ACK held across many writes: it arrives when the window has long moved on / nothing is outstanding
+        c['ahold'] = {str(rng.randrange(0, 4)): round(c['arrival'][0] * rng.choice([0.5, 2.5, 10.5, 0.45 * c['nseg']]), 4)}
+        if rng.random() < 0.5:
+            c['ahold'][str(rng.randrange(0, c['nseg']))] = round(c['arrival'][0] * rng.uniform(0.3, 6.0), 4)
+    if rng.random() < 0.3:
+        c['ddrops'] = sorted(rng.sample(range(span), rng.choice([1, 1, 2])))
+    if rng.random() < 0.3:
+        c['adrops'] = sorted(rng.sample(range(span), rng.choice([1, 1, 2])))
+    return c
+
+
+def overtaken_acks(sr):
+    """number of ACK events of the run whose number lies below the acknowledged mark they met"""
+    return sum(1 for r in sr.records if r['tag'] == 'A' and int(r['line'].split()[3]) < r['before']['lack'])
+# ---- END overtaken-ACK leg ----
 
 
 # ---- data flow ids -------------------------------------------------------------------------------------------
@@ -728,6 +823,7 @@ def run_sndk(ctx, res=None):
         with quiet():
             snd = tcpsim.TCPPacketGenerator(env, flow, cc, rtt_estimate=c['rtt'])
         txs, win = [], []
+        marks = []      # (b-fixack) (instant, ackno, last_ack before put, last_ack after put) of every delivered ACK: public attribute
 
         class Rec:
             def put(self, p):
@@ -741,7 +837,9 @@ def run_sndk(ctx, res=None):
                 yield env.timeout(gap)
                 a = Packet(st, 40, pid, flow_id=fid)
                 a.ack = ackno
+                before = snd.last_ack
                 snd.put(a)
+                marks.append((env.now, ackno, before, snd.last_ack))
         env.process(script())
         try:
             with quiet():
@@ -757,11 +855,17 @@ def run_sndk(ctx, res=None):
             'timers ' + ','.join(f'{k}@{tcpsim.fb(t.expire_time)}' for k, t in snd.timers.items()),
             'sent ' + ','.join(f'{k}@{tcpsim.fb(p.time)}' for k, p in snd.sent_packets.items()),
             f'tok={len(snd.cwnd_avaialbe.items)} proc={proc}', f'now {bits(env.now)}']
+        c['_marks'] = marks
         return lines, win, cc
 
     def oracle_k(c, lines, win, cc):
         if lines[0] != 'RET':
             return [{'what': f'the run of the sender under the ACK script ended with {lines[0]}', 'signature': 'sndk-raised'}]
+        # (b-fixack) C16 "ACKs are cumulative": the acknowledged mark never moves back, whatever ACK numbers arrive in whatever order
+        for t, ackno, before, after in c.get('_marks', []):
+            if after < before:
+                return [{'what': f'put(ACK {ackno}) at t={t} moved the sender\'s acknowledged mark BACK from {before} to {after}: ACKs are '
+                                 f'cumulative, an ACK below the mark acknowledges nothing new', 'signature': 'sndk-lastack-decreased'}]
         seen, nxt = set(), 0
         for pid, size, nseq, buf, lack, cwnd in win:
             if pid in seen:
@@ -790,14 +894,15 @@ def run_sndk(ctx, res=None):
         (a, win, cc), b = got[c['cid']], model.get(c['cid'])
         if a != b:
             d = first_diff(a, b)
-            dis.append({'case': c, 'detail': f'sndk line {d[0]}: impl `{d[1][:300]}` model `{d[2][:300]}`',
+            dis.append({'case': clean(c), 'detail': f'sndk line {d[0]}: impl `{d[1][:300]}` model `{d[2][:300]}`',
                         'impl': a[:300], 'model': (b or [])[:300]})
         for f in oracle_k(c, a, win, cc):
-            f['case'] = c; f['trace'] = a[:300]
+            f['case'] = clean(c); f['trace'] = a[:300]
             orc.append(f)
         seqs = [w[0] for w in win]
         retx = len(seqs) - len(set(seqs))
         h['acks delivered'] += len(c['acks']); h['transmissions'] += len(seqs); h['retransmissions'] += retx
+        h['acks delivered below the acknowledged mark (overtaken / stale)'] += sum(1 for t, k, b4, af in c.get('_marks', []) if k < b4)
         h[f"cc:{c['cc']}"] += 1
         h['runs with all data acknowledged'] += 1 if a[0] == 'RET' and f"lack={c['nseg'] * c['mss']} " in a[len(seqs) + 1] else 0
         h['runs ending with live timers'] += 1 if not any(l == 'timers ' for l in a) else 0
@@ -809,7 +914,7 @@ def run_sndk(ctx, res=None):
                 '(several MSS / initial windows / ssthresh) and CUBIC, run by the K program at Float (driver mode sndk) and by the real '
                 'TCPPacketGenerator with a real script process under env.run(until=T); non-trivial = at least one retransmission '
                 '(timeout or fast retransmit)', 'histogram': dict(sorted(h.items())),
-        'sample': {k: (v[:6] if k == 'acks' else v) for k, v in cases[0].items()} if cases else None}
+        'sample': {k: (v[:6] if k == 'acks' else v) for k, v in clean(cases[0]).items()} if cases else None}
     return None
 # ---- END sndk leg ----
 
@@ -829,6 +934,8 @@ def run(ctx):
         cases += [gen_loop_group(rng) for _ in range(n_loop)]
         cases += [gen_reorder_case(rng) for _ in range(80 if ctx.quick else 1200)]
         assign_flow_ids(cases, random.Random(f'C16-flowids-{ctx.seed}'))
+        orng = random.Random(f'C16-overtake-{ctx.seed}')         # overtaken-ACK leg (b-fixack): a stream of its own
+        cases += demo_overtake_cases() + [gen_overtake_case(orng) for _ in range(160 if ctx.quick else 2500)]
     disagreements, oracle_failures = [], []
     hist = collections.Counter()
     samples = []
@@ -877,7 +984,7 @@ def run(ctx):
                 loops = loops[:n + 1]
                 cases = [cc for j, cc in enumerate(cases) if j not in dropped]
                 break
-    smodel = model_batch('tcpsender', [t[0].text(key) for key, label, uc, c, t in units], 300)
+    smodel = model_batch('tcpsender', [t[0].text(key) for key, label, uc, c, t in units if not uc.get('arrival')], 300)
     kmodel = model_batch('tcpsink', [f'CASE {key}\n' + '\n'.join(f'P {pid} {t[0].sender.mss}' for pid, a, b in t[3]) + '\nEND'
                                      for key, label, uc, c, t in units], 500)
     lines_compared = 0
@@ -886,8 +993,17 @@ def run(ctx):
     for key, label, uc, top, t in units:
         sr, sink, ended, sinklog, dpath, apath = t
         c = uc
-        m = smodel.get(key)
-        lines_compared += len(sr.trace)
+        # (b-fixack) an application-limited flow (arrival_dist) is outside the sender LTS: judged by the direct oracles only
+        m = smodel.get(key) if not uc.get('arrival') else sr.trace
+        lines_compared += len(sr.trace) if not uc.get('arrival') else 0
+        if uc.get('aorder') == 'free':
+            n_over = overtaken_acks(sr)
+            hist['overtake-loops'] += 1
+            hist['overtake-loops-application-limited-oracle-only'] += 1 if uc.get('arrival') else 0
+            hist['overtake-loops-in-which-an-ack-was-overtaken'] += 1 if n_over else 0
+            hist['overtaken-acks-delivered'] += n_over
+            if n_over:
+                nontrivial.add(json.dumps(clean(top), sort_keys=True))
         if label:
             hist['peer-connections'] += 1
             hist['peer-connections-same-flow-id'] += 1 if uc.get('flow_id', 0) == top.get('flow_id', 0) else 0
@@ -898,7 +1014,9 @@ def run(ctx):
             hist['ev-' + r['tag']] += 1
             if r['tag'] == 'A':
                 b, a = r['before'], r['after']
-                if a['dup'] == 0:
+                if int(r['line'].split()[3]) < b['lack']:
+                    hist['ack-overtaken-below-the-mark'] += 1
+                elif a['dup'] == 0:
                     hist['ack-new'] += 1
                     if b['dup'] in (1, 2):
                         hist['ack-new-after-1-or-2-duplicates'] += 1
@@ -994,7 +1112,8 @@ def run(ctx):
         'evaluations': len(cases),
         'distinct_nontrivial': len(nontrivial),
         'rule': 'sink: distinct arrival sequences that are not a plain in-order run of adjacent segments; closed loop: '
-                'distinct configurations in which at least one packet was really dropped or a segment retransmitted',
+                'distinct configurations in which at least one packet was really dropped, a segment retransmitted, or an ACK arrived '
+                'below the acknowledged mark (overtaken on the return path)',
         'samples': samples,
         'sink_sequences': len(sinks), 'closed_loops': len(loops), 'closed_loops_executed_a_second_time': again,
         'reordering_paths': {'evaluations': sum(1 for _, c in loops if c.get('reorder')), 'distinct_nontrivial': len(rnontriv),
